@@ -25,7 +25,7 @@ CHECKS = {
 }
 CHECKS.update({
  'C21': ('E8', 'exploration', 'stateful model-based property testing with process restarts (clean exit and SIGKILL after the last acknowledged operation) of octopii\'s WriteAheadLog and WalLogStore',
-         'Layer 1: generated append / restart histories on WriteAheadLog (the only persistence mechanism of the log store and the peer address book); every lifetime opens the store and read_all() must return exactly the acknowledged records. Layer 2: generated Raft-shaped histories (append, truncate, purge, save_vote, save_committed, restarts) on WalLogStore against an in-memory model of the acknowledged operations.',
+         'Layer 1: generated append / restart histories on WriteAheadLog (the only persistence mechanism of the log store and the peer address book); every lifetime opens the store and read_all() must return exactly the acknowledged records; one case in six or seven holds a log larger than one 10 MiB read batch made of 36-64 KiB records. Layer 2: generated Raft-shaped histories (append, truncate, purge, save_vote, save_committed, restarts) on WalLogStore against an in-memory model of the acknowledged operations.',
          'openraft is replaced by a type-level stand-in (no consensus logic), tokio by the deterministic stand-in executor; the peer-address helpers of node.rs cannot be compiled offline and are covered through the WriteAheadLog they delegate to. Open finding C21-read-all-consumes is probed on every run; while it is open, restarts after the first one are excluded from the main search.', '§5 C21'),
  'C10': ('E2', 'fault_enumeration', 'power-loss state enumeration from an I/O trace (H1): for loss points of generated SyncEach workloads every subset / sampled subsets of the unsynced writes, creations and renames is materialised as a directory and recovered by a fresh process',
          'The traced run records every foreground I/O event with its bytes; for each loss point the directory is rebuilt under the model "explicitly synced data and directory entries are durable, everything else is kept or lost independently", opened and drained; acknowledged appends must be there in order and (StrictlyAtOnce) acknowledged consumption must not be redelivered.',
@@ -58,7 +58,7 @@ CHECKS.update({
          '2-3 instances from six (data dir, key) slots (incl. an un-keyed instance in the parent directory of keyed ones and a digit-only key that looks like a WAL file name) share topic names and run interleaved generated histories incl. in-process reopen of one instance and whole-process restarts; every response is judged against that instance\'s own model and no WAL file of another instance may disappear. Heavy search: both instances allocate >100 blocks in lock-step, one consumes everything, the other nothing; no file of the idle instance may be reclaimed and after a restart it must deliver everything.',
          'All instances live in one child process. Payloads >= 8 bytes are unique across instances.', '§5 C13'),
  'C05': ('E3', 'exploration', 'schedule-controlled concurrency testing (H2 token scheduler: generated thread programs x generated schedules, plus preemption-bounded enumeration of all schedules of small two-thread programs) with an exactly-once / real-time-order oracle',
-         'Real threads run the real engine one at a time; at every lock-free yield point of the read/append paths the generated schedule decides who continues, so interleavings are inputs and replayable. Oracle: delivered multiset == successfully appended multiset, per-producer order inside each read result and between reads ordered in real time, batch contiguity; a producers-only variant checks the drained serialisation.',
+         'Real threads run the real engine one at a time; at every lock-free yield point of the read/append paths the generated schedule decides who continues, so interleavings are inputs and replayable. Oracle: delivered multiset == successfully appended multiset, per-producer order inside each read result and between reads ordered in real time, batch contiguity; a producers-only variant checks the drained serialisation. Two further searches put a block rotation under polling readers (writer a few hundred bytes before the end of its block with unread entries in it): random schedules, and every schedule with at most two switches of one reader against one rotating producer.',
          'Yield points exist only where the engine holds no lock, so data races inside critical sections are outside the explored space. Overlapping reads are not ordered against each other.', '§5 C05'),
  'C04': ('E2', 'fault_enumeration', 'fault injection over generated workloads (H1 I/O seam: every I/O event of every append/batch fails with an errno or completes short) plus model-based histories with operations the engine must reject; FIFO model in which a failed call never happened',
          'Rejected operations (2001 entries, >10 GiB, >1 GiB entry, empty batch, over-long topic names) inside generated histories with restarts; and for generated workloads, every I/O event of every append / batch append (block write, io_uring SQE, submit, flush, file create/set_len/fsync, dir fsync - the latter reached by histories that first allocate 96..99 blocks) is made to fail or complete short, after which all later reads, appends, a drain, a fresh-process reopen and a second drain must agree with the model in which the failed call never happened.',
